@@ -191,6 +191,18 @@ func libLive(gs []mc.GInfo) []mc.GInfo {
 }
 
 // generic checks every oracle starts with: escaped panics, fatal errors, races, deadlock.
+// logChoice lets the environment decide whether the application has installed a log target
+// (util.Logger). With one, the library formats a message on every path that logs - code that
+// otherwise never runs (error branches that print a status code, a rejected frame, a nil value).
+// What a client does must not depend on it. Usage: defer logChoice()().
+func logChoice() func() {
+	util.Logger = nil
+	if mc.Choose(2, mc.Free) == 1 {
+		util.Logger = nullLogger{}
+	}
+	return func() { util.Logger = nil }
+}
+
 func generic(tr *mc.Trace, prop string, allowRace bool) []h.Violation {
 	var vs []h.Violation
 	for _, e := range tr.Log {
